@@ -8,6 +8,13 @@ The rules decide on computed images, not on statement shapes:
                item stores / update / del / pop / `if` blocks -> conditional values); field tables may be class- or module-level constants
   evaluation   getattr_nested is run by a small interpreter on a finite domain of attribute chains and compared with its specification
   stores       the value of self._current_genomeset while the document is structured: a direct assignment or the entry part of a @contextmanager method
+  effects      registrations executed when gambit.util.json is imported (statements, loops over literal tables, `f(*row)`, module-level calls of local
+               functions) and in ResultsArchiveReader.__init__ / _init_converter
+  registry     `@to_json.register(C)` or the bare form taking C from the first annotated parameter
+  domains      the bounded evaluations (getattr_nested: chains up to the longest exported path + 1; CSVResultsExporter.__init__: a family of option sets) carry
+               a coverage side-condition: a statement never executed / a test with a single outcome on which code hangs => Undecided, never a pass.
+               The path argument of a row cell is evaluated on every row of the literal COLUMNS table (the complete domain).
+  queries      filter conditions must be equalities between a model column and the value read from the document / the current genome set
 A construct outside these vocabularies raises Undecided naming it; a computed image that differs from the required one is a violation.
 
 E1 CSV column paths resolve step by step against the result model (attrs classes, SQLAlchemy columns / relationships / hybrids)
@@ -414,6 +421,9 @@ class Sym:
             if isinstance(n, ast.Constant) and isinstance(n.value, str) and n.value.isidentifier() and isinstance(o, ast.AST):
                 return ast.Attribute(value=copy.deepcopy(o), attr=n.value, ctx=ast.Load())
             return self.sym(e, env)
+        # attr.asdict(inst, filter=...): fields for which the filter is false are left out (trusted: attrs' filter contract)
+        if get_kw(e, 'filter') is not None and (fname is None or fname not in env) and self.m.resolve(self.fi.module, f) in ('attr.asdict', 'attrs.asdict'):
+            return self._asdict_filter(e, env)
         # a small helper of the package: evaluate it through its own definition
         if self.depth < self.MAX_DEPTH and fname is not None and fname not in env:
             r = self.m.resolve(self.fi.module, f)
@@ -425,6 +435,35 @@ class Sym:
                 except Undecided:
                     pass
         return self.sym(e, env)
+
+    def _asdict_filter(self, e, env):
+        flt = get_kw(e, 'filter')
+        rest = copy.deepcopy(e)
+        rest.keywords = [k for k in rest.keywords if k.arg != 'filter']
+        base = self.sym(rest, env)
+        removed = None
+        if isinstance(flt, ast.Lambda) and not flt.args.vararg and not flt.args.kwarg and not flt.args.kwonlyargs and len(flt.args.posonlyargs + flt.args.args) == 2:
+            fld = (flt.args.posonlyargs + flt.args.args)[0].arg
+            b = flt.body
+            if isinstance(b, ast.Compare) and len(b.ops) == 1:
+                sides = [b.left, b.comparators[0]]
+                name_side = [x for x in sides if u(x) == f'{fld}.name']
+                other = [x for x in sides if u(x) != f'{fld}.name']
+                if len(name_side) == 1 and len(other) == 1:
+                    try:
+                        val = ast.literal_eval(other[0])
+                    except Exception:
+                        val = None
+                    if isinstance(b.ops[0], ast.NotEq) and isinstance(val, str):
+                        removed = (val,)
+                    elif isinstance(b.ops[0], ast.NotIn) and name_side[0] is b.left and isinstance(val, (tuple, list, set, frozenset)) and all(isinstance(x, str) for x in val):
+                        removed = tuple(val)
+                    elif isinstance(b.ops[0], (ast.Eq, ast.In)) and name_side[0] is sides[0] or isinstance(b.ops[0], ast.Eq):
+                        # keeps only the named fields: a located deviation from "everything but ..."
+                        return ast.parse(f'__only__({u(base)}, {u(other[0])})', mode='eval').body
+        if removed is None:
+            raise Undecided(f'{self.where}: asdict() filter {u(flt)[:80]} is not a field-name exclusion the rule can evaluate')
+        return Minus(base, removed)
 
     def _inline(self, tgt, call, env):
         a = tgt.node.args
@@ -477,7 +516,10 @@ class Sym:
                 continue
             if isinstance(s, ast.Delete):
                 for t in s.targets:
-                    self._remove(t, env, s)
+                    if isinstance(t, ast.Name):
+                        env.pop(t.id, None)     # `del local`: the name is simply gone
+                    else:
+                        self._remove(t, env, s)
                 continue
             if isinstance(s, ast.If):
                 t = self.sym(s.test, env)
@@ -560,7 +602,71 @@ class Sym:
                 return
             if isinstance(cur, (DictV, Minus)):
                 raise Undecided(f'{self.where}: mutation of the result the rule cannot evaluate: {u(s)[:80]}')
-        self.effect('call', self.sym(c, env), stmt=s)
+        self.effect('call', self.sym(self._expand_stars(c, env), env), stmt=s)
+
+    def _expand_stars(self, c, env):
+        """`f(*row)` where row is a row of a literal table: the row's elements as positional arguments."""
+        if not any(isinstance(a, ast.Starred) for a in c.args):
+            return c
+        args = []
+        for a in c.args:
+            if isinstance(a, ast.Starred):
+                v = self.ev(a.value, env)
+                if not (isinstance(v, SeqV) and all(isinstance(x, ast.AST) for x in v.elts)):
+                    raise Undecided(f'{self.where}: star argument {u(a)[:40]} is not a row of a literal table')
+                args += [copy.deepcopy(x) for x in v.elts]
+            else:
+                args.append(a)
+        new = ast.Call(func=c.func, args=args, keywords=c.keywords)
+        return ast.copy_location(new, c)
+
+
+def module_effects(m, mod, relevant):
+    """Calls executed when a module is imported, in order, as the rules need them: statements at module level, loops over literal
+    tables unrolled, rows spread with `*row` expanded.  `relevant(call)` says which calls matter: a relevant call under a
+    construct the evaluator cannot follow (if / try / with / while at module level) is Undecided."""
+    from ..model import FuncInfo
+    top = ast.FunctionDef(name='<module>', args=ast.arguments(posonlyargs=[], args=[], kwonlyargs=[], kw_defaults=[], defaults=[]), body=[ast.Pass()], decorator_list=[], lineno=1)
+    sym = Sym(m, FuncInfo(f'{mod.name}.<module>', top, mod), 0, [])
+    env = {}
+    for s in mod.tree.body:
+        if isinstance(s, (ast.Import, ast.ImportFrom, ast.FunctionDef, ast.AsyncFunctionDef, ast.ClassDef, ast.Pass)) or (isinstance(s, ast.Expr) and isinstance(s.value, ast.Constant)):
+            continue
+        if isinstance(s, (ast.Assign, ast.AnnAssign)):
+            tg = s.targets if isinstance(s, ast.Assign) else [s.target]
+            val = s.value
+            if len(tg) == 1 and isinstance(tg[0], ast.Name) and val is not None and _literal_rows(val):
+                sym.run([s], env)       # a literal table kept in a module-level name
+            else:
+                for t in tg:
+                    for n in ast.walk(t):
+                        if isinstance(n, ast.Name):
+                            env.pop(n.id, None)     # any other global stays a free name
+            continue
+        if isinstance(s, (ast.For, ast.Delete)) or (isinstance(s, ast.Expr) and isinstance(s.value, ast.Call)):
+            if isinstance(s, ast.For) and not any(relevant(c) for c in calls_in(s)):
+                continue
+            if isinstance(s, ast.Expr) and not relevant(s.value):
+                # a module-level call of a function of this module that performs relevant calls: evaluate it through its definition
+                tgt = m.functions.get(m.resolve(mod, s.value.func))
+                if tgt is not None and tgt.module is mod and tgt.cls is None and any(relevant(c) for c in calls_in(tgt.node)):
+                    if tgt.decorators:
+                        raise Undecided(f'{mod.relpath}: {u(s.value)[:60]} performs the registrations inside a decorated function')
+                    binding = bind_call(tgt, s.value, {}, f'{mod.relpath} module level', keep_identity=True)
+                    sub = Sym(m, tgt, 1, sym.effects)
+                    sub.run(tgt.node.body, dict(binding))
+                    continue
+            sym.run([s], env)
+            continue
+        hidden = [c for c in calls_in(s) if relevant(c)]
+        if hidden:
+            raise Undecided(f'{mod.relpath}: {u(hidden[0])[:60]} is executed under a module-level `{type(s).__name__.lower()}` the rule cannot follow')
+    return [e[1] for e in sym.effects if e[0] == 'call']
+
+
+def _literal_rows(node):
+    """A list / tuple display whose elements are tuples / lists (a table of rows), whatever the cells are."""
+    return isinstance(node, (ast.List, ast.Tuple)) and bool(node.elts) and all(isinstance(x, (ast.Tuple, ast.List)) for x in node.elts)
 
 
 def image(m, fi, effects=None):
@@ -799,7 +905,7 @@ def csv_trace(m, fi):
     """What CSVResultsExporter.export writes: csv.writer objects, the row stream handed to them, writes that bypass them."""
     where = fi.qualname.rsplit('.', 1)[-1]
     rows = Rows(m)
-    st = dict(files=set(), writers={}, bound={}, ctor=[], stream=[], raw=[], handled=0)
+    st = dict(files=set(), opened={}, writers={}, bound={}, ctor=[], stream=[], raw=[], handled=0)
 
     def is_ctor(e):
         return isinstance(e, ast.Call) and u(e.func) == 'csv.writer'
@@ -855,6 +961,7 @@ def csv_trace(m, fi):
                 for i in s.items:
                     if i.optional_vars is not None and isinstance(i.optional_vars, ast.Name):
                         st['files'].add(i.optional_vars.id)
+                        st['opened'][i.optional_vars.id] = subst(i.context_expr, env, where)
                 walk(s.body, env)
             elif isinstance(s, ast.Assign) and len(s.targets) == 1 and isinstance(s.targets[0], ast.Name):
                 if is_ctor(s.value):
@@ -960,6 +1067,59 @@ class PObj:
         return 'root' + ''.join('.' + p for p in self.path) + (' (falsy)' if self.falsy else '')
 
 
+class Coverage:
+    """What a family of evaluations exercised: statements executed, outcomes of every test, functions entered.  A bounded evaluation
+    can vouch only for code its domain reaches: `uncovered()` lists statements never executed and tests with a single outcome on
+    which code hangs - the caller then reports the run as undecided, never as a pass."""
+
+    def __init__(self):
+        self.seen_stmt = set()
+        self.seen_test = {}
+        self.funcs = {}
+
+    def enter(self, fi):
+        self.funcs[fi.qualname] = fi
+
+    def stmt(self, s):
+        self.seen_stmt.add(id(s))
+
+    def test(self, node, outcome):
+        self.seen_test.setdefault(id(node), set()).add(bool(outcome))
+
+    def uncovered(self):
+        out = []
+        for q, fi in sorted(self.funcs.items()):
+            for s in stmts_in(fi.node.body):
+                if isinstance(s, (ast.FunctionDef, ast.AsyncFunctionDef, ast.ClassDef, ast.Pass)) or (isinstance(s, ast.Expr) and isinstance(s.value, ast.Constant)):
+                    continue
+                if id(s) not in self.seen_stmt:
+                    out.append(f'{q}: statement never reached on the evaluated domain: `{u(s)[:70]}` ({fi.file}:{s.lineno})')
+            for n in ast.walk(fi.node):
+                if isinstance(n, (ast.If, ast.While, ast.IfExp)) and not isinstance(n.test, ast.Constant):
+                    got = self.seen_test.get(id(n))
+                    if got is not None and len(got) < 2:
+                        if True in got and isinstance(n, ast.If) and not n.orelse:
+                            continue      # nothing hangs on the untaken outcome
+                        out.append(f'{q}: test `{u(n.test)[:70]}` is always {sorted(got)[0]} on the evaluated domain ({fi.file}:{n.lineno})')
+        return out
+
+
+class Tok:
+    """An uninterpreted constant named by its source text (csv.QUOTE_MINIMAL)."""
+
+    def __init__(self, text):
+        self.text = text
+
+    def __eq__(self, o):
+        return isinstance(o, Tok) and o.text == self.text
+
+    def __hash__(self):
+        return hash(('Tok', self.text))
+
+    def __repr__(self):
+        return self.text
+
+
 class Conc:
     """Interpreter for the small imperative subset getattr_nested is written in, over a world in which the attribute chain
     is opaque objects except for one position that holds None.  Every getattr call is traced."""
@@ -967,12 +1127,17 @@ class Conc:
     TYPES = {'str': str, 'list': list, 'tuple': tuple, 'dict': dict, 'int': int, 'bool': bool}
     MAX_STEPS = 200
 
-    def __init__(self, none_path, where, falsy_path=None):
+    def __init__(self, none_path, where, falsy_path=None, model=None, module=None, cov=None):
         self.none_path = none_path
         self.falsy_path = falsy_path
         self.trace = []
         self.where = where
         self.steps = 0
+        self.model = model      # to evaluate calls of small package helpers through their own definition
+        self.module = module
+        self.depth = 0
+        self.attrs = {}         # (object path, attribute) -> value stored by the evaluated code
+        self.cov = cov if cov is not None else Coverage()
 
     def getattr(self, o, name, *default):
         self.trace.append((repr(o), name))
@@ -990,8 +1155,12 @@ class Conc:
     def truth(self, v):
         if isinstance(v, PObj):
             return not v.falsy
+        if isinstance(v, Tok):
+            raise Undecided(f'{self.where}: truth value of the uninterpreted constant {v!r}')
         if v is None or isinstance(v, (bool, int, str, list, tuple, dict)):
             return bool(v)
+        if isinstance(v, type):
+            return True
         raise Undecided(f'{self.where}: truth value of {v!r}')
 
     def ev(self, e, env):
@@ -1020,7 +1189,9 @@ class Conc:
                     return v
             return v
         if isinstance(e, ast.IfExp):
-            return self.ev(e.body, env) if self.truth(self.ev(e.test, env)) else self.ev(e.orelse, env)
+            t = self.truth(self.ev(e.test, env))
+            self.cov.test(e, t)
+            return self.ev(e.body, env) if t else self.ev(e.orelse, env)
         if isinstance(e, ast.Compare):
             left = self.ev(e.left, env)
             for op, r in zip(e.ops, e.comparators):
@@ -1034,7 +1205,7 @@ class Conc:
                     ok = left == right
                 elif t == 'NotEq':
                     ok = left != right
-                elif t in ('In', 'NotIn') and isinstance(right, (list, tuple, str)):
+                elif t in ('In', 'NotIn') and isinstance(right, (list, tuple, str, dict)) and not (isinstance(right, str) and not isinstance(left, str)):
                     ok = (left in right) == (t == 'In')
                 elif t in ('Lt', 'LtE', 'Gt', 'GtE') and isinstance(left, int) and isinstance(right, int):
                     ok = {'Lt': left < right, 'LtE': left <= right, 'Gt': left > right, 'GtE': left >= right}[t]
@@ -1054,6 +1225,11 @@ class Conc:
                     return b[i]
                 except IndexError:
                     raise _Raise('IndexError')
+            if isinstance(b, dict):
+                k = self.key(i, e)
+                if k not in b:
+                    raise _Raise('KeyError')
+                return b[k]
             raise Undecided(f'{self.where}: subscript {u(e)[:60]}')
         if isinstance(e, ast.Subscript):
             b = self.ev(e.value, env)
@@ -1070,20 +1246,107 @@ class Conc:
             raise Undecided(f'{self.where}: arithmetic {u(e)[:60]}')
         if isinstance(e, ast.Call):
             return self.call(e, env)
+        if isinstance(e, ast.Attribute):
+            if isinstance(e.value, ast.Name) and e.value.id not in env and e.value.id not in self.TYPES:
+                return Tok(u(e))        # a constant of another module (csv.QUOTE_MINIMAL): an uninterpreted token
+            b = self.ev(e.value, env)
+            if isinstance(b, PObj) and (b.path, e.attr) in self.attrs:
+                return self.attrs[(b.path, e.attr)]
+            raise Undecided(f'{self.where}: attribute the rule cannot evaluate: {u(e)[:60]}')
+        if isinstance(e, ast.Dict):
+            d = {}
+            for k, v in zip(e.keys, e.values):
+                if k is None:
+                    sp = self.ev(v, env)
+                    if not isinstance(sp, dict):
+                        raise Undecided(f'{self.where}: spread of {u(v)[:40]}')
+                    d.update(sp)
+                else:
+                    d[self.key(self.ev(k, env), e)] = self.ev(v, env)
+            return d
         raise Undecided(f'{self.where}: expression the rule cannot evaluate: {u(e)[:60]}')
 
+    def key(self, k, node):
+        if isinstance(k, (str, int, Tok)) or k is None:
+            return k
+        raise Undecided(f'{self.where}: dict key {k!r} in {u(node)[:60]}')
+
+    DICT_METHODS = ('setdefault', 'get', 'items', 'keys', 'values', 'update', 'copy', 'pop')
+    LIST_METHODS = ('append', 'extend', 'copy')
+    CACHES = ('lru_cache', 'functools.lru_cache', 'cache', 'functools.cache')
+
+    def call_user(self, tgt, args, e):
+        """A call of a small package helper, evaluated through its own definition.  functools.lru_cache / cache wrappers are
+        transparent (trusted: memoisation of a function of hashable arguments returns the value the function returns)."""
+        for d in tgt.decorators:
+            if u(d.func if isinstance(d, ast.Call) else d) not in self.CACHES:
+                raise Undecided(f'{self.where}: call of {tgt.name}, decorated with {u(d)[:40]}')
+        a = tgt.node.args
+        if a.vararg or a.kwarg or a.kwonlyargs or a.posonlyargs or self.depth >= 3 or any(isinstance(n, (ast.Yield, ast.YieldFrom)) for n in ast.walk(tgt.node)):
+            raise Undecided(f'{self.where}: call the rule cannot evaluate: {u(e)[:60]}')
+        params = [x.arg for x in a.args]
+        if len(args) > len(params):
+            raise _Raise('TypeError')
+        new = dict(zip(params, args))
+        for p, dflt in zip(params[len(params) - len(a.defaults):], a.defaults):
+            if p not in new:
+                new[p] = self.ev(dflt, {})
+        if len(new) != len(params):
+            raise _Raise('TypeError')
+        self.depth += 1
+        self.cov.enter(tgt)
+        try:
+            self.run(tgt.node.body, new)
+        except _Ret as r:
+            return r.v
+        except (_Brk, _Cont):
+            raise Undecided(f'{self.where}: break / continue outside a loop in {tgt.name}')
+        finally:
+            self.depth -= 1
+        return None
+
     def call(self, e, env):
+        f = e.func
+        if isinstance(f, ast.Name) and f.id == 'dict' and f.id not in env and len(e.args) <= 1 and not any(isinstance(a, ast.Starred) for a in e.args):
+            d = {}
+            for src in [self.ev(a, env) for a in e.args] + [self.ev(k.value, env) for k in e.keywords if k.arg is None]:
+                if not isinstance(src, dict):
+                    raise Undecided(f'{self.where}: call {u(e)[:60]}')
+                d.update(src)
+            d.update({k.arg: self.ev(k.value, env) for k in e.keywords if k.arg is not None})
+            return d
         if e.keywords or any(isinstance(a, ast.Starred) for a in e.args):
             raise Undecided(f'{self.where}: call {u(e)[:60]}')
-        f = e.func
+        if isinstance(f, ast.Attribute) and f.attr != 'split':
+            b = self.ev(f.value, env)
+            args = [self.ev(a, env) for a in e.args]
+            if isinstance(b, dict) and f.attr in self.DICT_METHODS:
+                if f.attr in ('setdefault', 'get', 'pop') and args:
+                    self.key(args[0], e)
+                try:
+                    r = getattr(b, f.attr)(*args)
+                except KeyError:
+                    raise _Raise('KeyError')
+                except TypeError:
+                    raise Undecided(f'{self.where}: call {u(e)[:60]}')
+                return list(r) if f.attr in ('items', 'keys', 'values') else r
+            if isinstance(b, list) and f.attr in self.LIST_METHODS:
+                return getattr(b, f.attr)(*args)
+            if (b is None or type(b) in (str, list, tuple, dict, int, bool)) and not hasattr(b, f.attr):
+                raise _Raise('AttributeError')
+            raise Undecided(f'{self.where}: call the rule cannot evaluate: {u(e)[:60]}')
         if isinstance(f, ast.Name) and f.id not in env:
             args = [self.ev(a, env) for a in e.args]
+            if f.id == 'type' and len(args) == 1:
+                return object if isinstance(args[0], (PObj, Tok)) else type(args[0])
             if f.id == 'getattr' and len(args) in (2, 3):
                 return self.getattr(*args)
             if f.id == 'isinstance' and len(args) == 2:
                 ts = args[1] if isinstance(args[1], tuple) else (args[1],)
                 if all(isinstance(t, type) for t in ts):
                     return (not isinstance(args[0], PObj)) and isinstance(args[0], tuple(ts))
+                if all(t is None or type(t) in (str, list, dict, int, bool, type) for t in ts):
+                    raise _Raise('TypeError')
             if f.id == 'len' and len(args) == 1 and isinstance(args[0], (list, tuple, str)):
                 return len(args[0])
             if f.id in ('list', 'tuple') and len(args) == 1 and isinstance(args[0], (list, tuple)):
@@ -1092,24 +1355,54 @@ class Conc:
                 return self.truth(args[0])
             if f.id == 'range' and 1 <= len(args) <= 2 and all(isinstance(a, int) for a in args):
                 return list(range(*args))
+            if self.model is not None and self.module is not None:
+                tgt = self.model.functions.get(self.model.resolve(self.module, f))
+                if tgt is not None and tgt.cls is None and tgt.module.kind == 'py':
+                    return self.call_user(tgt, args, e)
         if isinstance(f, ast.Attribute) and f.attr == 'split':
             b = self.ev(f.value, env)
             args = [self.ev(a, env) for a in e.args]
             if isinstance(b, str) and len(args) == 1 and isinstance(args[0], str) and args[0]:
                 return b.split(args[0])
+            if isinstance(b, str) and len(args) == 2 and isinstance(args[0], str) and args[0] and isinstance(args[1], int) and not isinstance(args[1], bool):
+                return b.split(args[0], args[1])
+            if b is None or type(b) in (list, tuple, dict, int, bool):
+                raise _Raise('AttributeError')
         raise Undecided(f'{self.where}: call the rule cannot evaluate: {u(e)[:60]}')
+
+    def assign(self, t, v, env, stmt):
+        if isinstance(t, ast.Name):
+            env[t.id] = v
+        elif isinstance(t, (ast.Tuple, ast.List)) and isinstance(v, (list, tuple)) and not any(isinstance(x, ast.Starred) for x in t.elts):
+            if len(v) != len(t.elts):
+                raise _Raise('ValueError')
+            for tt, x in zip(t.elts, v):
+                self.assign(tt, x, env, stmt)
+        elif isinstance(t, ast.Subscript) and not isinstance(t.slice, ast.Slice):
+            b = self.ev(t.value, env)
+            if not isinstance(b, dict):
+                raise Undecided(f'{self.where}: store the rule cannot evaluate: {u(stmt)[:80]}')
+            b[self.key(self.ev(t.slice, env), stmt)] = v
+        elif isinstance(t, ast.Attribute):
+            b = self.ev(t.value, env)
+            if not isinstance(b, PObj):
+                raise Undecided(f'{self.where}: store the rule cannot evaluate: {u(stmt)[:80]}')
+            self.attrs[(b.path, t.attr)] = v
+        else:
+            raise Undecided(f'{self.where}: store the rule cannot evaluate: {u(stmt)[:80]}')
 
     def run(self, stmts, env):
         for s in stmts:
             self.steps += 1
+            self.cov.stmt(s)
             if self.steps > self.MAX_STEPS:
                 raise Undecided(f'{self.where}: evaluation does not terminate within {self.MAX_STEPS} steps')
             if isinstance(s, ast.Pass) or (isinstance(s, ast.Expr) and isinstance(s.value, ast.Constant)):
                 continue
-            if isinstance(s, ast.Assign) and all(isinstance(t, ast.Name) for t in s.targets):
+            if isinstance(s, ast.Assign):
                 v = self.ev(s.value, env)
                 for t in s.targets:
-                    env[t.id] = v
+                    self.assign(t, v, env, s)
             elif isinstance(s, ast.AnnAssign) and isinstance(s.target, ast.Name):
                 if s.value is not None:
                     env[s.target.id] = self.ev(s.value, env)
@@ -1119,14 +1412,18 @@ class Conc:
                     raise Undecided(f'{self.where}: {u(s)[:60]}')
                 env[s.target.id] = l + r if isinstance(s.op, ast.Add) else l - r
             elif isinstance(s, ast.If):
-                self.run(s.body if self.truth(self.ev(s.test, env)) else s.orelse, env)
-            elif isinstance(s, ast.For) and isinstance(s.target, ast.Name):
+                t = self.truth(self.ev(s.test, env))
+                self.cov.test(s, t)
+                self.run(s.body if t else s.orelse, env)
+            elif isinstance(s, ast.For):
                 it = self.ev(s.iter, env)
+                if isinstance(it, dict):
+                    it = list(it)
                 if not isinstance(it, (list, tuple)):
                     raise Undecided(f'{self.where}: loop over {u(s.iter)[:40]} (value {it!r})')
                 broke = False
                 for x in list(it):
-                    env[s.target.id] = x
+                    self.assign(s.target, x, env, s)
                     try:
                         self.run(s.body, env)
                     except _Brk:
@@ -1138,7 +1435,11 @@ class Conc:
                     self.run(s.orelse, env)
             elif isinstance(s, ast.While):
                 broke = False
-                while self.truth(self.ev(s.test, env)):
+                while True:
+                    t = self.truth(self.ev(s.test, env))
+                    self.cov.test(s, t)
+                    if not t:
+                        break
                     self.steps += 1
                     if self.steps > self.MAX_STEPS:
                         raise Undecided(f'{self.where}: evaluation does not terminate within {self.MAX_STEPS} steps')
@@ -1182,15 +1483,19 @@ def nested_spec(names, special_depth, kind, pass_none):
     return ('return', cur), trace
 
 
-def check_getattr_nested(fg):
-    """Exhaustive evaluation on chains of up to 3 attributes x position of a None / of a falsy present value x pass_none x spelling of the path.
+def check_getattr_nested(m, fg, max_len=3):
+    """Exhaustive evaluation on chains of up to max_len attributes (the longest path of the exported table plus one) x position of a None /
+    of a falsy present value x pass_none x spelling of the path.  Side-condition: the domain must exercise every statement and every test
+    outcome code hangs on, in getattr_nested and in every helper it calls - otherwise Undecided (code the domain never reaches cannot be vouched for).
     -> (number of worlds, first disagreement or None)"""
     params = fg.params()
     if len(params) != 3 or fg.node.args.vararg or fg.node.args.kwarg:
         raise Undecided(f'getattr_nested: unexpected signature {params}')
-    pool = ['alpha', 'beta', 'gamma']
+    pool = ['alpha', 'beta', 'gamma', 'delta', 'epsilon', 'zeta', 'eta', 'theta'] + [f'name{i}' for i in range(8, max_len)]
     n_worlds = 0
-    for n in range(0, 4):
+    cov = Coverage()
+    cov.enter(fg)
+    for n in range(0, max_len + 1):
         names = pool[:n]
         for depth, kind in [(None, 'none')] + [(d, k) for d in range(0, n + 1) for k in ('none', 'falsy')]:
             for pass_none in (False, True):
@@ -1198,7 +1503,7 @@ def check_getattr_nested(fg):
                 for fname, attrs in forms:
                     want, wtrace = nested_spec(names, depth, kind, pass_none)
                     sp = tuple(names[:depth]) if depth else None
-                    c = Conc(sp if kind == 'none' else None, 'getattr_nested', sp if kind == 'falsy' else None)
+                    c = Conc(sp if kind == 'none' else None, 'getattr_nested', sp if kind == 'falsy' else None, model=m, module=fg.module, cov=cov)
                     root = PObj(()) if depth != 0 else (None if kind == 'none' else PObj((), True))
                     env = {params[0]: root, params[1]: attrs, params[2]: pass_none}
                     try:
@@ -1213,7 +1518,70 @@ def check_getattr_nested(fg):
                     n_worlds += 1
                     if got != want or c.trace != wtrace:
                         return n_worlds, dict(path=attrs, special_value=f'{kind} at depth {depth}', pass_none=pass_none, required=want, found=got, required_getattr_calls=wtrace, found_getattr_calls=c.trace)
+    unc = cov.uncovered()
+    if unc:
+        raise Undecided('getattr_nested: the bounded evaluation does not cover the code: ' + '; '.join(unc[:3]))
     return n_worlds, None
+
+
+def path_argument_deviation(m, gr, ir, path_expr, cols):
+    """The cell hands getattr_nested an expression computed from the table row instead of the row's path itself.  Evaluate it for every
+    row of the literal COLUMNS table: it must yield the path string or the sequence of its attribute names (the spellings on which
+    getattr_nested is checked against its specification).  -> None or the first deviation."""
+    for hdr, path in cols:
+        c = Conc(None, 'get_row', model=m, module=gr.module)
+        env = {}
+        try:
+            c.assign(ir['target'], (hdr, path), env, ir['target'])
+            v = c.ev(path_expr, env)
+        except _Raise as r:
+            return dict(column=hdr, path=path, path_argument=f'raises {r.kind}')
+        if not (v == path or (isinstance(v, (list, tuple)) and list(v) == path.split('.'))):
+            return dict(column=hdr, path=path, path_argument=repr(v))
+    return None
+
+
+def check_default_dialect(m, init):
+    """CSVResultsExporter.__init__ evaluated on a finite family of keyword option sets: the options stored on the exporter must be the
+    caller's options, completed - when no dialect is named - by lineterminator='\\n' and quoting=csv.QUOTE_MINIMAL where not given.
+    -> (number of option sets, first deviation or None)"""
+    a = init.node.args
+    if a.kwarg is None or a.vararg or a.kwonlyargs or a.posonlyargs or len(a.args) != 1:
+        raise Undecided(f'CSVResultsExporter.__init__: signature {u(a)} is not (self, **options)')
+    defaults = {'lineterminator': '\n', 'quoting': Tok('csv.QUOTE_MINIMAL')}
+    family = [{}, {'delimiter': ';'}, {'quoting': Tok('<caller quoting>')}, {'lineterminator': '\r\n'}, {'quoting': Tok('<caller quoting>'), 'lineterminator': '\r\n', 'delimiter': '\t'},
+              {'dialect': Tok('<caller dialect>')}, {'dialect': Tok('<caller dialect>'), 'quoting': Tok('<caller quoting>')}, {'dialect': Tok('<caller dialect>'), 'lineterminator': '\r\n', 'delimiter': ';'}]
+    n = 0
+    cov = Coverage()
+    cov.enter(init)
+    for opts in family:
+        c = Conc(None, 'CSVResultsExporter.__init__', model=m, module=init.module, cov=cov)
+        me = PObj(())
+        try:
+            c.run(init.node.body, {a.args[0].arg: me, a.kwarg.arg: dict(opts)})
+        except _Ret:
+            pass
+        except _Raise as r:
+            return n, dict(options=opts, found=f'raises {r.kind}')
+        except (_Brk, _Cont):
+            raise Undecided('CSVResultsExporter.__init__: break / continue outside a loop')
+        n += 1
+        got = c.attrs.get(((), 'format_opts'))
+        if not isinstance(got, dict):
+            return n, dict(options=opts, found=f'format_opts = {got!r}')
+        if 'dialect' in opts:
+            ok = all(got.get(k, None) == v and k in got for k, v in opts.items())
+            want = f'at least {opts}'
+        else:
+            want = dict(defaults)
+            want.update(opts)
+            ok = got == want
+        if not ok:
+            return n, dict(options=opts, required=want, found=got)
+    unc = cov.uncovered()
+    if unc:
+        raise Undecided('CSVResultsExporter.__init__: the evaluated option sets do not cover the code: ' + '; '.join(unc[:3]))
+    return n, None
 
 
 # ====================================================================== CSV
@@ -1267,9 +1635,18 @@ def check_csv(ctx):
     ctor = tr['ctor']
     ctor_ids = {id(c) for c in ctor}
     file_ok = all(c.args and isinstance(c.args[0], ast.Name) and c.args[0].id in tr['files'] for c in ctor)
+    opened = []
+    if file_ok:
+        for c in ctor:
+            oc = tr['opened'].get(c.args[0].id)
+            rep.require(isinstance(oc, ast.Call) and m.resolve(fe.module, oc.func) == 'gambit.util.io.maybe_open' and not any(isinstance(a, ast.Starred) for a in oc.args),
+                        f'CSVResultsExporter.export: the file handed to csv.writer comes from `with {u(oc)[:60]}`, which is not a maybe_open() call the rule can evaluate')
+            mode = get_arg(oc, 1, 'mode')
+            opened.append(u(oc))
+            file_ok = file_ok and u(get_arg(oc, 0, 'file_or_path')) == fe.params()[1] and isinstance(mode, ast.Constant) and isinstance(mode.value, str) and 'w' in mode.value
     okw = len(ctor_ids) == 1 and file_ok and not tr['raw'] and bool(stream) and tr['calls'] == tr['handled']
-    rep.add('E3', fe.site(ctor[0] if ctor else None), 'rows are emitted only through csv.writer (commas, quotes, newlines, non-ASCII stay parseable)', okw, expected='every row goes through one csv.writer(f, **opts)',
-            found=dict(writers=[u(c)[:60] for c in ctor], rows=stream, bypassing=tr['raw']), stmt='csv writer')
+    rep.add('E3', fe.site(ctor[0] if ctor else None), 'rows are emitted only through csv.writer (commas, quotes, newlines, non-ASCII stay parseable)', okw, expected="every row goes through one csv.writer(f, **opts), f from maybe_open(file_or_path, 'w')",
+            found=dict(writers=[u(c)[:60] for c in ctor], file=opened, rows=stream, bypassing=tr['raw']), stmt='csv writer')
     hdr_seg = ('one', 'self.get_header()')
     okh = stream.count(hdr_seg) == 1 and stream[0] == hdr_seg
     rep.add('E3', fe.site(), 'the header is written once, before the rows', okh, expected='self.get_header() as the first row, nowhere else', found=stream, stmt='header once')
@@ -1286,29 +1663,35 @@ def check_csv(ctx):
     okgh = ih['wrapper'] is None and not ih['ifs'] and u(ih['iter']) in table and u(ih['elt']) in component(ih, 0)
     okgr = ir['wrapper'] is None and not ir['ifs'] and u(ir['iter']) in table and isinstance(ir['elt'], ast.Call) and m.resolve(gr.module, ir['elt'].func) == fg.qualname
     cell = None
+    path_dev = None
     if okgr:
         try:
             b = bind_call(fg, ir['elt'], {}, 'get_row')
             full = {p: b.get(p, ast.Name(id=p, ctx=ast.Load())) for p in fg.params()}
             cell = [u(full[p]) for p in fg.params()]
-            okgr = cell[0] == gr.params()[1] and cell[1] in component(ir, 1) and is_const(full[fg.params()[2]], True)
+            okgr = cell[0] == gr.params()[1] and is_const(full[fg.params()[2]], True)
         except Undecided:
             okgr = False
+        if okgr and cell[1] not in component(ir, 1):
+            # the path handed to getattr_nested is computed from the table row (pre-split, normalised ...): evaluate it on every row of the literal table
+            path_dev = path_argument_deviation(m, gr, ir, full[fg.params()[1]], cols)
+            okgr = path_dev is None
     rep.account_returns('E3', gh, ih['returns'], 'header')
     rep.account_returns('E3', gr, ir['returns'], 'row')
     rep.add('E3', gh.site(), 'header cells are the first components of COLUMNS, in table order', okgh, expected='[name for name, _ in self.COLUMNS]', found=dict(cell=u(ih['elt']), loop=f"for {u(ih['target'])} in {u(ih['iter'])}", filters=[u(x) for x in ih['ifs']], reordered_by=ih['wrapper']),
             stmt='get_header')
     rep.add('E3', gr.site(), 'row cells are the second components of COLUMNS resolved on the item, in the same order, absent values as empty cells', okgr, expected='[getattr_nested(item, attrs, pass_none=True) for _, attrs in self.COLUMNS]',
-            found=dict(cell=u(ir['elt']), loop=f"for {u(ir['target'])} in {u(ir['iter'])}", filters=[u(x) for x in ir['ifs']], reordered_by=ir['wrapper']), stmt='get_row')
-    nw, bad = check_getattr_nested(fg)
+            found=dict(cell=u(ir['elt']), loop=f"for {u(ir['target'])} in {u(ir['iter'])}", filters=[u(x) for x in ir['ifs']], reordered_by=ir['wrapper'], **({'path_argument': path_dev} if path_dev else {})), stmt='get_row')
+    nw, bad = check_getattr_nested(m, fg, max(3, 1 + max(len(str(p).split('.')) for _, p in cols)))
     rep.info['getattr_nested_worlds'] = nw
     rep.add('E3', fg.site(), 'a dotted path is followed attribute by attribute; None short-circuits to None only when asked', bad is None,
-            expected="split('.') of a str path; for attr: if pass_none and obj is None: return None; obj = getattr(obj, attr)  (same result and same getattr calls on every chain of <= 3 attributes x position of None x pass_none)",
+            expected="split('.') of a str path; for attr: if pass_none and obj is None: return None; obj = getattr(obj, attr)  (same result and same getattr calls on every chain up to the longest exported path + 1 x position of a None / falsy value x pass_none; every statement and test outcome exercised)",
             found=bad if bad is not None else f'{nw} evaluations agree', stmt='getattr_nested')
     init = ex.methods['__init__']
-    dflt = {u(get_arg(c, 0)): u(get_arg(c, 1)) for c in calls_in(init.node) if callee_attr(c) == 'setdefault'}
-    rep.add('E3', init.site(), 'default dialect quotes minimally with LF line endings', dflt.get("'quoting'") == 'csv.QUOTE_MINIMAL' and dflt.get("'lineterminator'") == "'\\n'", expected="quoting=csv.QUOTE_MINIMAL, lineterminator='\\n'", found=dflt,
-            stmt='csv dialect')
+    rep.functions.add(init.qualname)
+    nd, bad = check_default_dialect(m, init)
+    rep.add('E3', init.site(), 'default dialect quotes minimally with LF line endings', bad is None, expected="without an explicit dialect: quoting=csv.QUOTE_MINIMAL, lineterminator='\\n' unless given; options given by the caller are kept",
+            found=bad if bad is not None else f'{nd} option sets evaluated, all as required', stmt='csv dialect')
 
 
 def registry(ci):
@@ -1318,6 +1701,19 @@ def registry(ci):
         for d in f.decorators:
             if isinstance(d, ast.Call) and u(d.func) == 'to_json.register' and d.args:
                 out[u(d.args[0])] = f
+            elif isinstance(d, ast.Attribute) and u(d) == 'to_json.register':
+                # bare form: functools.singledispatch(method).register takes the class from the first annotated parameter
+                a = f.node.args
+                ann = [x.annotation for x in a.posonlyargs + a.args + ([a.vararg] if a.vararg else []) + a.kwonlyargs + ([a.kwarg] if a.kwarg else []) if x.annotation is not None]
+                if not ann:
+                    raise Undecided(f'{f.qualname}: bare @to_json.register on a function without an annotated parameter')
+                t = ann[0]
+                if isinstance(t, ast.Constant) and isinstance(t.value, str):
+                    out[t.value] = f
+                elif isinstance(t, (ast.Name, ast.Attribute)):
+                    out[u(t)] = f
+                else:
+                    raise Undecided(f'{f.qualname}: bare @to_json.register with the parameter annotation {u(t)[:60]}, which is not a class name')
     return out
 
 
@@ -1382,6 +1778,16 @@ def check_json(ctx):
         images[cname] = own
         rep.add('E4', f.site(), f'JSON {cname}: every listed field is an attribute of the model and is read from the object itself', bool(own) and not bad and not foreign, expected='declared attributes',
                 found=(bad + foreign) or [k for k, _ in own], stmt=f'json {cname} fields')
+    fgn = reg['AnnotatedGenome']
+    gp = fgn.params()[1]
+    lin = dict_image(rep, m, fgn, 'JSON AnnotatedGenome').get('taxonomy')
+    if lin is not None:
+        le = lin
+        while isinstance(le, ast.Call) and isinstance(le.func, ast.Name) and le.func.id in ('list', 'tuple') and len(le.args) == 1 and not le.keywords:
+            le = le.args[0]
+        rep.require(isinstance(le, ast.Call) and u(le.func) == f'{gp}.taxon.ancestors' and not any(isinstance(a, ast.Starred) for a in le.args) and all(k.arg for k in le.keywords),
+                    f'JSON AnnotatedGenome: the taxonomy entry {str(canon(lin))[:80]} is not a call of the genome\'s taxon.ancestors() the rule can evaluate')
+        rep.add('E4', fgn.site(), 'JSON genome: the taxonomy lineage starts at the genome\'s own taxon', is_const(get_arg(le, 0, 'incself'), True), expected=f'{gp}.taxon.ancestors(incself=True)', found=u(le), stmt='json genome lineage')
     ft = reg['Taxon']
     tf = {k for k, ch in images['Taxon'] if ch == k}
     rep.add('E4', ft.site(), 'JSON taxon carries name, rank, NCBI id and threshold (the CSV taxon columns)', {'name', 'rank', 'ncbi_id', 'distance_threshold'} <= tf, expected='name, rank, ncbi_id, distance_threshold', found=sorted(tf), stmt='json taxon columns')
@@ -1448,8 +1854,48 @@ def assigned_targets_names(s):
     return out
 
 
+_OPTEXT = {'Eq': '==', 'NotEq': '!=', 'Lt': '<', 'LtE': '<=', 'Gt': '>', 'GtE': '>=', 'Is': 'is', 'IsNot': 'is not', 'In': 'in', 'NotIn': 'not in'}
+_FLIPTEXT = {'<': '>', '<=': '>=', '>': '<', '>=': '<='}
+
+
+def filter_conditions(m, module, calls):
+    """Conditions of `.filter_by(k=v)` / `.filter(M.k == v, ...)` / `.where(...)` calls ->
+    (equalities {(column, value text)}, comparisons of a column that are NOT equalities [text], conditions the rule cannot read [text])."""
+    conds, bad, unknown = set(), [], []
+    for c in calls:
+        name = c.func.attr
+        if name == 'filter_by':
+            if c.args or any(k.arg is None for k in c.keywords):
+                unknown.append(u(c)[:80])
+                continue
+            conds |= {(k.arg, u(k.value)) for k in c.keywords}
+        elif name in ('filter', 'where'):
+            if c.keywords or any(isinstance(a, ast.Starred) for a in c.args):
+                unknown.append(u(c)[:80])
+                continue
+            for a in c.args:
+                if not (isinstance(a, ast.Compare) and len(a.ops) == 1):
+                    unknown.append(u(a)[:80])
+                    continue
+                sides = [a.left, a.comparators[0]]
+                col = [x for x in sides if isinstance(x, ast.Attribute) and isinstance(x.value, ast.Name) and m.resolve(module, x.value) in m.classes]
+                if len(col) != 1:
+                    unknown.append(u(a)[:80])
+                    continue
+                other = sides[1] if col[0] is sides[0] else sides[0]
+                if isinstance(a.ops[0], ast.Eq):
+                    conds.add((col[0].attr, u(other)))
+                else:
+                    op = _OPTEXT.get(type(a.ops[0]).__name__, type(a.ops[0]).__name__)
+                    if col[0] is not sides[0]:
+                        op = _FLIPTEXT.get(op, op)
+                    bad.append(f'{col[0].attr} {op} {u(other)}')
+    return conds, bad, unknown
+
+
 def query_chain(m, module, e):
-    """`<session>.query(M)[.join(..)].filter_by(k=v) / .filter(M.k == v) ... .one()` -> dict(terminal=, conds={(column, value text)}) or None."""
+    """`<session>.query(M)[.join(..)].filter_by(k=v) / .filter(M.k == v) ... .one()` ->
+    dict(terminal=, conds={(column, value text)}, bad=[non-equality comparisons], unknown=[unreadable conditions]); None when e is not such a chain."""
     calls = []
     cur = e
     while isinstance(cur, ast.Call) and isinstance(cur.func, ast.Attribute):
@@ -1458,23 +1904,8 @@ def query_chain(m, module, e):
     calls.reverse()
     if len(calls) < 2 or calls[0][0] != 'query':
         return None
-    conds = set()
-    for name, c in calls[1:]:
-        if name == 'filter_by':
-            if c.args or any(k.arg is None for k in c.keywords):
-                return None
-            conds |= {(k.arg, u(k.value)) for k in c.keywords}
-        elif name in ('filter', 'where'):
-            for a in c.args:
-                if not (isinstance(a, ast.Compare) and len(a.ops) == 1 and isinstance(a.ops[0], (ast.Eq, ast.Is))):
-                    return None
-                sides = [a.left, a.comparators[0]]
-                col = [x for x in sides if isinstance(x, ast.Attribute) and isinstance(x.value, ast.Name) and m.resolve(module, x.value) in m.classes]
-                if len(col) != 1:
-                    return None
-                other = sides[1] if col[0] is sides[0] else sides[0]
-                conds.add((col[0].attr, u(other)))
-    return dict(terminal=calls[-1][0], conds=conds)
+    conds, bad, unknown = filter_conditions(m, module, [c for name, c in calls[1:] if name in ('filter_by', 'filter', 'where')])
+    return dict(terminal=calls[-1][0], conds=conds, bad=bad, unknown=unknown)
 
 
 def is_contextmanager(m, fi):
@@ -1575,6 +2006,13 @@ def check_archive(ctx):
     rep.add('E5', wr.site(), 'classes with a reduced (key-only) image on write == classes with a structure hook on read', set(reg) == set(hooks), expected=sorted(reg), found=sorted(hooks), stmt='registry agreement')
     rep.add('E5', fi.site(), 'the reader starts from a copy of the shared converter (all generic hooks identical on both sides)', len(conv) == 1 and conv_txt[0] == 'gjson.converter.copy()', expected='gjson.converter.copy()',
             found=conv_txt, stmt='reader converter')
+    rinit = rd.methods.get('__init__')
+    rep.require(rinit is not None, 'ResultsArchiveReader.__init__ not found')
+    rep.functions.add(rinit.qualname)
+    ieff = []
+    image(m, rinit, ieff)
+    installs = [u(e[1]) for e in ieff if e[0] == 'call' and m.resolve_call(rinit, e[1]) == fi.qualname]
+    rep.add('E5', rinit.site(), 'every reader installs its converter (with the structure hooks) when it is constructed', len(installs) == 1, expected='self._init_converter()', found=installs, stmt='reader init')
     rf = rd.methods['results_from_json']
     rs_rf = local_resolver(rf)
     for cname, f in sorted(reg.items()):
@@ -1600,16 +2038,19 @@ def check_archive(ctx):
     for hname, model in (('_structure_genome', 'AnnotatedGenome'), ('_structure_taxon', 'Taxon')):
         hf = rd.methods[hname]
         rs = local_resolver(hf)
-        src = u(hf.node)
         rets = [s for s in stmts_in(hf.node.body) if isinstance(s, ast.Return) and s.value is not None]
         qs = [query_chain(m, hf.module, rs(s.value)) for s in rets]
-        if rets and all(q is not None for q in qs):
-            dp = hf.params()[1]
-            okq = all(q['terminal'] == 'one' and ('genome_set_id', 'self._current_genomeset.id') in q['conds'] and q['conds'] & {('key', f"{dp}['key']"), ('key', f"{dp}.get('key')")} for q in qs)
-            found = [dict(terminal=q['terminal'], conditions=sorted(q['conds'])) for q in qs]
-        else:
-            okq = 'self._current_genomeset.id' in src and '.one()' in src and 'genome_set_id' in src and "data['key']" in src
-            found = src[:100].replace('\n', ' ')
+        if not (rets and all(q is not None for q in qs)):
+            # the query is not one call chain (built step by step): read every filter call of the function, the terminal from the returned expressions
+            fcalls = [rs(c) for c in calls_in(hf.node) if isinstance(c.func, ast.Attribute) and c.func.attr in ('filter_by', 'filter', 'where')]
+            conds, bad, unknown = filter_conditions(m, hf.module, fcalls)
+            terms = {rs(s.value).func.attr if isinstance(rs(s.value), ast.Call) and isinstance(rs(s.value).func, ast.Attribute) else u(s.value)[:40] for s in rets}
+            qs = [dict(terminal=t, conds=conds, bad=bad, unknown=unknown) for t in (terms or {'<no return>'})]
+        unk = [x for q in qs for x in q['unknown']]
+        rep.require(not unk, f'{hname}: query condition the rule cannot read: {unk[0] if unk else ""}')
+        dp = hf.params()[1]
+        okq = all(q['terminal'] == 'one' and not q['bad'] and ('genome_set_id', 'self._current_genomeset.id') in q['conds'] and q['conds'] & {('key', f"{dp}['key']"), ('key', f"{dp}.get('key')")} for q in qs)
+        found = [dict(terminal=q['terminal'], equalities=sorted(q['conds']), other_comparisons=q['bad']) for q in qs]
         rep.add('E5', hf.site(), f'{model} is looked up by key within the genome set of the results, exactly one match required', okq, expected="filter(genome_set_id == gset.id, key == data['key']).one()", found=found, stmt=f'{hname} query')
     st = [c for c in calls_in(rf.node) if u(c.func) == 'self._converter.structure']
     rep.add('E5', rf.site(), 'the whole document is structured back into QueryResults', len(st) == 1 and [u(a) for a in st[0].args] == [rf.params()[1], 'QueryResults'], expected='self._converter.structure(data, QueryResults)', found=[u(c) for c in st],
@@ -1631,7 +2072,10 @@ def check_archive(ctx):
             q = query_chain(m, rf.module, vals[0][1])
             rep.require(q is not None or not isinstance(vals[0][1], ast.Call), f'results_from_json: the value installed as self._current_genomeset ({u(vals[0][1])[:80]}) is not a session query the rule can evaluate')
             dk = f"{rf.params()[1]}['genomeset']"
-            okg = q is not None and q['terminal'] == 'one' and q['conds'] == {('key', f"{dk}['key']"), ('version', f"{dk}['version']")}
+            rep.require(q is None or not q['unknown'], f'results_from_json: genome set query condition the rule cannot read: {q["unknown"][0] if q and q["unknown"] else ""}')
+            okg = q is not None and q['terminal'] == 'one' and not q['bad'] and q['conds'] == {('key', f"{dk}['key']"), ('version', f"{dk}['version']")}
+            if q is not None and q['bad']:
+                found = found + [f'not an equality: {b}' for b in q['bad']]
     rep.add('E5', site, 'the genome set is found by (key, version), exactly one match required', okg, expected='filter_by(key=..., version=...).one()', found=found, stmt='genome set lookup')
     # fields of the result graph not reduced: attrs classes handled by the generic converter on both sides
     for q in ('gambit.query.QueryResults', 'gambit.query.QueryResultItem', 'gambit.query.QueryInput', 'gambit.query.QueryParams', 'gambit.classify.ClassifierResult', 'gambit.classify.GenomeMatch'):
@@ -1648,11 +2092,15 @@ def check_scalars(ctx):
     site = (jm.relpath, 1, 'gambit.util.json')
     hooks = {}
     pairs = {}
-    for n in ast.walk(jm.tree):
-        if isinstance(n, ast.Call) and u(n.func) == 'converter.register_unstructure_hook' and len(n.args) == 2:
+    # registrations executed at import time (direct statements, or driven from literal tables)
+    for n in module_effects(m, jm, lambda c: u(c.func) in ('converter.register_unstructure_hook', 'register_hooks')):
+        if u(n.func) == 'converter.register_unstructure_hook' and len(n.args) == 2 and not n.keywords:
             hooks[u(n.args[0])] = (u(n.args[1]), n)
-        if isinstance(n, ast.Call) and u(n.func) == 'register_hooks' and len(n.args) >= 3 and n in [s.value for s in jm.tree.body if isinstance(s, ast.Expr)]:
+        if u(n.func) == 'register_hooks' and len(n.args) >= 3:
             pairs[u(n.args[0])] = (u(n.args[1]), u(n.args[2]))
+    for n in ast.walk(jm.tree):     # registrations written inside functions of the module
+        if isinstance(n, ast.Call) and u(n.func) == 'converter.register_unstructure_hook' and len(n.args) == 2 and u(n.args[0]) not in hooks and not any(isinstance(a, ast.Starred) for a in n.args):
+            hooks[u(n.args[0])] = (u(n.args[1]), n)
     f = hooks.get('np.floating')
     rep.add('E6', (jm.relpath, f[1].lineno if f else 1, 'gambit.util.json'), 'NumPy floats are written with float() - an exact widening of float32, so every distance survives to the last bit', f is not None and f[0] == 'float',
             expected='float', found=f[0] if f else None, stmt='np.floating hook')
@@ -1687,9 +2135,9 @@ def check(ctx):
     rep.rule('E4', 'JSON images of item / query / taxon / genome / results')
     rep.rule('E5', 'archive writer/reader registries and key fields agree; attrs classes round-trip generically')
     rep.rule('E6', 'lossless scalar hooks')
-    rep.trusted += ['cattrs structuring of annotated attrs fields', 'csv module quoting / parse-back', 'float(np.float32) is exact; json round-trips a Python float exactly (repr)']
+    rep.trusted += ['attr.asdict(filter=...) leaves out exactly the fields the filter rejects; functools.lru_cache / cache return what the wrapped function returns; functools.singledispatch bare register takes the class from the first annotated parameter', 'cattrs structuring of annotated attrs fields', 'csv module quoting / parse-back', 'float(np.float32) is exact; json round-trips a Python float exactly (repr)']
     rep.assumptions += ['Agreement clauses only: cattrs behaviour per field type and CSV parse-back are trusted (DESIGN.md 5/C11).',
-                        'getattr_nested is decided by exhaustive abstract evaluation of its body on attribute chains of length 0..3 x position of a None / of a falsy present value x pass_none x path given as dotted str / list / tuple '
+                        'getattr_nested is decided by exhaustive abstract evaluation of its body on attribute chains of length 0..(longest exported path + 1) x position of a None / of a falsy present value x pass_none x path given as dotted str / list / tuple '
                         '(result and sequence of getattr calls must equal the specification); longer chains are assumed to behave like these (the loop body does not depend on the position).',
                         'Images (rows handed to the csv writer, dicts returned by the converters, cells of a row) are computed symbolically: locals are replaced by their definitions, i.e. the expressions involved are assumed free of side effects.']
     check_csv(ctx)
@@ -1793,4 +2241,71 @@ VARIANTS += [
     V('E: taxon looked up with filter() expressions', 'E', _R, _TAXQ, "\t\treturn self.session.query(Taxon).filter(Taxon.genome_set_id == gset_id, Taxon.key == key).one()"),
     V('filter() form not confined to the genome set', 'B', _R, _TAXQ, "\t\treturn self.session.query(Taxon).filter(Taxon.key == key).one()", 'E5'),
     V('filter() form takes the first match', 'B', _R, _TAXQ, "\t\treturn self.session.query(Taxon).filter(Taxon.genome_set_id == gset_id, Taxon.key == key).first()", 'E5'),
+]
+
+# ---- second held-out corpus + mutation probe: registrations driven from tables, bare singledispatch registration, asdict filter, pre-split paths through a
+# cached helper, option defaults by membership test, query conditions must be equalities, file opened through maybe_open, reader constructor, lineage
+_REG = "# Python builtins\nregister_hooks(datetime, datetime.isoformat, datetime.fromisoformat)\nregister_hooks(date, date.isoformat, date.fromisoformat)\nregister_hooks(Path, str, Path)\n\n# Numpy scalars\nconverter.register_unstructure_hook(np.integer, int)\nconverter.register_unstructure_hook(np.floating, float)\n"
+_REG2 = "for _hooks in [\n\t(datetime, datetime.isoformat, datetime.fromisoformat),\n\t(date, date.isoformat, date.fromisoformat),\n\t(Path, %s),\n]:\n\tregister_hooks(*_hooks)\n\nfor _hooks in [(np.integer, int), %s]:\n\tconverter.register_unstructure_hook(*_hooks)\n\ndel _hooks\n"
+_ARCH_TAXON = "\t@to_json.register(Taxon)\n\tdef _taxon_to_json(self, taxon: Taxon):\n\t\treturn _todict(taxon, ['key'])\n"
+_RESULTS = "\t\tdata = asdict(results, recurse=False)\n\t\tdel data['params']  # Parameters not currently exposed thru CLI, so omit for now.\n\t\treturn data\n"
+_RESULTS2 = "\t\treturn asdict(results, recurse=False, filter=lambda field, value: field.name %s)\n"
+_LRU = ((_R, "from functools import singledispatchmethod\n", "from functools import singledispatchmethod, lru_cache\n"),)
+_SPLIT_HELPER = "@lru_cache(maxsize=None)\ndef _split_path(path):\n\treturn tuple(path.split(%s))\n\n\n"
+_CSV_CLASS = "class CSVResultsExporter(AbstractResultsExporter):\n"
+_ROW2 = "\t\trow = []\n\t\tfor _, attrs in self.COLUMNS:\n\t\t\tpath = _split_path(attrs) if type(attrs) is str else attrs\n\t\t\trow.append(getattr_nested(item, path, pass_none=True))\n\t\treturn row\n"
+_NESTED_HEAD = "\tif isinstance(attrs, str):\n\t\tattrs = attrs.split('.')\n"
+_DIALECT = "\t\tif 'dialect' not in format_opts:\n\t\t\tformat_opts.setdefault('lineterminator', '\\n')\n\t\t\tformat_opts.setdefault('quoting', csv.QUOTE_MINIMAL)\n\t\tself.format_opts = format_opts\n"
+_DIALECT2 = "\t\tself.format_opts = format_opts\n\t\tif 'dialect' in format_opts:\n\t\t\treturn\n\t\tfor name, default in [('lineterminator', %s), ('quoting', csv.QUOTE_MINIMAL)]:\n%s\t\t\tformat_opts[name] = default\n"
+_GENQ = "\t\t\t.filter(AnnotatedGenome.genome_set_id == gset_id, Genome.key == key)\\\n"
+_GSETQ = "\t\t\t.filter_by(key=gset_key, version=gset_version) \\\n"
+_INPUT3 = "\t\tfile = input.file\n\t\tif file is None:\n\t\t\tpath = fmt = None\n\t\telse:\n\t\t\tpath, fmt = %s\n\t\treturn dict(name=input.label, path=path, format=fmt)\n"
+_LOOP = "\t\t\tfor item in results.items:\n\t\t\t\twriter.writerow(self.get_row(item))\n"
+VARIANTS += [
+    # E6 registrations executed at import time, driven from literal tables
+    V('E: scalar hooks registered from two literal tables', 'E', _J, _REG, _REG2 % ("str, Path", "(np.floating, float)")),
+    V('hook table rounds numpy floats', 'B', _J, _REG, _REG2 % ("str, Path", "(np.floating, lambda x: round(float(x), 6))"), 'E6'),
+    V('hook table lacks the numpy float row', 'B', _J, _REG, _REG2 % ("str, Path", "(np.bool_, bool)"), 'E6'),
+    V('hook table swaps the Path pair', 'B', _J, _REG, _REG2 % ("Path, str", "(np.floating, float)"), 'E6'),
+    # E4/E5 registry: bare @to_json.register takes the class from the annotation
+    V('E: bare singledispatch registration (class from the annotation)', 'E', _R, _ARCH_TAXON, _ARCH_TAXON.replace("@to_json.register(Taxon)", "@to_json.register")),
+    V('bare registration with the annotation of another class', 'B', _R, _ARCH_TAXON, _ARCH_TAXON.replace("@to_json.register(Taxon)", "@to_json.register").replace("taxon: Taxon", "taxon: Genome"), 'E5'),
+    # E4 results image: exclusion by asdict filter
+    V('E: params excluded by an asdict filter', 'E', _R, _RESULTS, _RESULTS2 % "!= 'params'"),
+    V('asdict filter excludes the items', 'B', _R, _RESULTS, _RESULTS2 % "!= 'items'", 'E4'),
+    V('asdict filter keeps only the params', 'B', _R, _RESULTS, _RESULTS2 % "== 'params'", 'E4'),
+    # E3 path handed to getattr_nested computed from the table row / helper evaluated through its definition
+    V('E: row paths pre-split through a cached helper', 'E', _R, _ROW, _ROW2, also=_LRU + ((_R, _CSV_CLASS, (_SPLIT_HELPER % "'.'") + _CSV_CLASS),)),
+    V('cached helper splits on the wrong separator', 'B', _R, _ROW, _ROW2, 'E3', also=_LRU + ((_R, _CSV_CLASS, (_SPLIT_HELPER % "','") + _CSV_CLASS),)),
+    V('pre-split path drops its last attribute', 'B', _R, _ROW, _ROW2.replace("_split_path(attrs) if", "_split_path(attrs)[:-1] if"), 'E3', also=_LRU + ((_R, _CSV_CLASS, (_SPLIT_HELPER % "'.'") + _CSV_CLASS),)),
+    V('E: getattr_nested splits through a cached helper', 'E', _R, _NESTED_HEAD, "\tif isinstance(attrs, str):\n\t\tattrs = _split_path(attrs)\n", also=_LRU + ((_R, "def getattr_nested(", (_SPLIT_HELPER % "'.'") + "def getattr_nested("),)),
+    V('cached helper of getattr_nested splits once only', 'B', _R, _NESTED_HEAD, "\tif isinstance(attrs, str):\n\t\tattrs = _split_path(attrs)\n", 'E3', also=_LRU + ((_R, "def getattr_nested(", (_SPLIT_HELPER % "'.', 1") + "def getattr_nested("),)),
+    V('getattr_nested splits what is not a string', 'B', _R, "\tif isinstance(attrs, str):\n", "\tif not isinstance(attrs, str):\n", 'E3'),
+    # E3 default dialect decided by evaluation
+    V('E: dialect defaults by guard clause and membership test', 'E', _R, _DIALECT, _DIALECT2 % ("'\\n'", "\t\t\tif name not in format_opts:\n\t")),
+    V('membership test inverted', 'B', _R, _DIALECT, _DIALECT2 % ("'\\n'", "\t\t\tif name in format_opts:\n\t"), 'E3'),
+    V('defaults override the options given', 'B', _R, _DIALECT, _DIALECT2 % ("'\\n'", ""), 'E3'),
+    V('default line terminator CRLF', 'B', _R, _DIALECT, _DIALECT2 % ("'\\r\\n'", "\t\t\tif name not in format_opts:\n\t"), 'E3'),
+    V('explicit dialect test inverted', 'B', _R, "\t\tif 'dialect' not in format_opts:\n", "\t\tif 'dialect' in format_opts:\n", 'E3'),
+    # E5 query conditions are equalities (mutation probe)
+    V('genome looked up by a key inequality', 'B', _R, _GENQ, _GENQ.replace("Genome.key == key", "Genome.key != key"), 'E5'),
+    V('genome looked up outside the genome set', 'B', _R, _GENQ, _GENQ.replace("genome_set_id == gset_id", "genome_set_id != gset_id"), 'E5'),
+    V('taxon filter() form with a key inequality', 'B', _R, _TAXQ, "\t\treturn self.session.query(Taxon).filter(Taxon.genome_set_id == gset_id, Taxon.key != key).one()", 'E5'),
+    V('E: genome set looked up with filter() expressions', 'E', _R, _GSETQ, "\t\t\t.filter(ReferenceGenomeSet.key == gset_key, ReferenceGenomeSet.version == gset_version) \\\n"),
+    V('genome set looked up by a version inequality', 'B', _R, _GSETQ, "\t\t\t.filter(ReferenceGenomeSet.key == gset_key, ReferenceGenomeSet.version != gset_version) \\\n", 'E5'),
+    V('E: genome query built step by step', 'E', _R, "\t\treturn self.session.query(AnnotatedGenome)\\\n\t\t\t.join(Genome)\\\n" + _GENQ + "\t\t\t.one()", "\t\tq = self.session.query(AnnotatedGenome).join(Genome)\n\t\tq = q.filter(AnnotatedGenome.genome_set_id == gset_id)\n\t\tq = q.filter(Genome.key == key)\n\t\treturn q.one()"),
+    V('step by step genome query with an inequality', 'B', _R, "\t\treturn self.session.query(AnnotatedGenome)\\\n\t\t\t.join(Genome)\\\n" + _GENQ + "\t\t\t.one()", "\t\tq = self.session.query(AnnotatedGenome).join(Genome)\n\t\tq = q.filter(AnnotatedGenome.genome_set_id == gset_id)\n\t\tq = q.filter(Genome.key != key)\n\t\treturn q.one()", 'E5'),
+    # E4 query image through locals and one if/else
+    V('E: json query through locals and one if/else', 'E', _R, _INPUT, _INPUT3 % "file.path, file.format"),
+    V('json query locals unpacked in the wrong order', 'B', _R, _INPUT, _INPUT3 % "file.format, file.path", 'E4'),
+    # E3 row stream: writerows(map(...)) next to a writerow header
+    V('E: item rows through writerows(map(...))', 'E', _R, _LOOP, "\t\t\twriter.writerows(map(self.get_row, results.items))\n"),
+    V('writerows(map(...)) skips the first item', 'B', _R, _LOOP, "\t\t\twriter.writerows(map(self.get_row, results.items[1:]))\n", 'E3'),
+    # mutation probe: file of the csv writer, reader constructor, lineage
+    V('csv file opened with swapped arguments', 'B', _R, "\t\twith maybe_open(file_or_path, 'w') as f:\n\t\t\twriter = csv.writer", "\t\twith maybe_open('w', file_or_path) as f:\n\t\t\twriter = csv.writer", 'E3'),
+    V('csv file opened for reading', 'B', _R, "\t\twith maybe_open(file_or_path, 'w') as f:\n\t\t\twriter = csv.writer", "\t\twith maybe_open(file_or_path) as f:\n\t\t\twriter = csv.writer", 'E3'),
+    V('reader constructed without its converter', 'B', _R, "\t\tself._init_converter()\n", "", 'E5'),
+    V('json genome lineage without the genome\'s own taxon', 'B', _R, "genome.taxon.ancestors(incself=True)", "genome.taxon.ancestors(incself=False)", 'E4'),
+    V('getattr_nested gives up on paths longer than four attributes (code the small domain would never reach)', 'B', _R, _NESTED_HEAD, _NESTED_HEAD + "\tif len(attrs) > 4:\n\t\treturn None\n", 'E3'),
+    V('E: lineage flag passed positionally', 'E', _R, "genome.taxon.ancestors(incself=True)", "genome.taxon.ancestors(True)"),
 ]
